@@ -32,6 +32,12 @@ def one(sid):
     try:
         if sh(f"git apply {d/'patch.diff'}", cwd=wt)[0]:
             return sid, "does-not-apply", ""
+        drc, _ = sh(f"/venv/bin/python {d/'demo.py'}", cwd=wt, env=dict(os.environ, PYTHONPATH=str(wt / "src")), timeout=900)
+        if drc == 0:   # a later fix: commit made the change harmless: its own demonstration passes on HEAD + patch
+            meta = json.loads((d / "meta.json").read_text())
+            meta["regression"] = {"repo_head": HEAD, "verdict": "demonstration passes at this head: the change no longer breaks the property (neutralised by a later fix: commit)"}
+            (d / "meta.json").write_text(json.dumps(meta, indent=1) + "\n")
+            return sid, "neutralised", ""
         sh(f"cp -r {VERIF} {sv}")
         rc, out = sh(f"/venv/bin/python harness/vcheck.py {pid} quick", cwd=sv,
                      env=dict(os.environ, VERIF_SEED="0", VERIF_REPO=str(wt), VERIF_PROCS="6"))
